@@ -180,7 +180,8 @@ macro_rules! by_len {
 pub fn run(scn: &str, out: &mut dyn Write) {
     let text = std::fs::read_to_string(scn).expect("scn");
     writeln!(out, "{{\"ev\":\"case_start\",\"case\":\"cmp\",\"prop\":\"C13\",\"ety\":\"plain\",\"rec\":false}}").unwrap();
-    for line in text.lines() {
+    for (row, line) in text.lines().enumerate() {
+        crate::ROW.store(row, std::sync::atomic::Ordering::Relaxed);
         // ety a0,a1,.. b0,b1,..   ("-" for the empty sequence)
         let f: Vec<&str> = line.split_whitespace().collect();
         if f.len() < 3 {
